@@ -47,6 +47,9 @@ type Walker struct {
 	Transfer func(st int, n ast.Node, f Formula) int
 	OnExit   func(st int, ret *ast.ReturnStmt, f Formula)
 	AtNode   func(n ast.Node, states uint64, f Formula)
+	// OnBranch observes break/continue statements; OnLoopBodyEnd the normal end of a loop body.
+	OnBranch      func(b *ast.BranchStmt, states uint64, f Formula)
+	OnLoopBodyEnd func(loop ast.Stmt, states uint64, f Formula)
 
 	ver    map[types.Object]int
 	opaque int
@@ -658,6 +661,9 @@ func (w *Walker) stmt(s ast.Stmt, f Formula) Formula {
 		w.event(x, f)
 		w.exit(x, f)
 	case *ast.BranchStmt:
+		if w.OnBranch != nil && w.quiet == 0 {
+			w.OnBranch(x, w.cur, f)
+		}
 		switch x.Tok {
 		case token.BREAK:
 			if n := len(w.frames); n > 0 {
@@ -704,7 +710,10 @@ func (w *Walker) stmt(s ast.Stmt, f Formula) Formula {
 				w.expr(x.Cond, f)
 				bf = MkAnd(f, w.Cond(x.Cond))
 			}
-			w.block(x.Body.List, bf)
+			ef := w.block(x.Body.List, bf)
+			if w.OnLoopBodyEnd != nil && w.quiet == 0 && w.cur != 0 {
+				w.OnLoopBodyEnd(x, w.cur, ef)
+			}
 		}, func() {
 			if x.Post != nil {
 				w.stmt(x.Post, f)
@@ -724,7 +733,12 @@ func (w *Walker) stmt(s ast.Stmt, f Formula) Formula {
 			w.bumpLHS(x.Value)
 		}
 		w.Loops = append(w.Loops, x)
-		w.loop(false, func() { w.block(x.Body.List, f) }, nil)
+		w.loop(false, func() {
+			ef := w.block(x.Body.List, f)
+			if w.OnLoopBodyEnd != nil && w.quiet == 0 && w.cur != 0 {
+				w.OnLoopBodyEnd(x, w.cur, ef)
+			}
+		}, nil)
 		w.Loops = w.Loops[:len(w.Loops)-1]
 		w.bumpAssignedIn(x.Body)
 	case *ast.SelectStmt:
